@@ -63,7 +63,9 @@ def margin_units(nrep, nnon, nunexp=0, states=("AA",), counties=2, cls=True, dis
             t = prof[k % 16] + 100 * (k // 16)
             us.append(P.U("%sn%d" % (s, i), "non", state=s, county="%sc%d" % (s, 1 + i % counties),
                           base=dict(turnout=t, dem=t // 2 + 1, gop=t // 3 + 2), pev=40 + 10 * i,
-                          res=dict(turnout=t // 3, dem=t // 7 + i, gop=t // 8 + 2)))
+                          # every other outstanding unit has already counted more two-party votes than the model predicts for it
+                          res=(dict(turnout=t // 3, dem=t // 7 + i, gop=t // 8 + 2) if i % 2 else
+                               dict(turnout=t, dem=t // 2 - 7, gop=t // 3 + 5))))
             k += 1
     st = unexp_state or states[0]
     for i in range(nunexp):
@@ -167,7 +169,7 @@ def build_bs(ctx, case):
     return sc
 
 
-def run_bs_client(ctx, case, sc=None, tag="", client=None, boot=None, config=None):
+def run_bs_client(ctx, case, sc=None, tag="", client=None, boot=None, config=None, frames=None):
     sc = sc or build_bs(ctx, case)
     own = boot is None
     if own:
@@ -179,7 +181,7 @@ def run_bs_client(ctx, case, sc=None, tag="", client=None, boot=None, config=Non
     mp.setdefault("lambda_", 1.0)
     c["model_parameters"] = mp
     try:
-        r = P.run_client(ctx, c, sc=sc, client=client, config=config)
+        r = P.run_client(ctx, c, sc=sc, client=client, config=config, frames=frames)
     finally:
         if own:
             boot.uninstall()
